@@ -152,6 +152,12 @@ def clientLine (rs : RibSt) (cl : Cl.State) (ts : List Tok) : RibSt × Cl.State 
               !obsRes.any (fun o => !o.isNil && o.opId == a.1 && terminal cl.fibMode (statusOfNum o.status))) with
             | some a => rs.monfail "c13" s!"operation {a.1} was handed to the client and registered, but is neither pending nor represented by a terminal result: it is lost"
             | none => rs
+          -- C13 monitor (errors are never lost): what the client has recorded as a send or receive
+          -- error stays recorded — nothing in these runs resets the client
+          let rs := if se < rs.lastErrs.1 || re < rs.lastErrs.2
+            then rs.monfail "c13" s!"the client reported {rs.lastErrs.1} send and {rs.lastErrs.2} receive errors before, now {se} and {re}: a recorded error is gone"
+            else rs
+          let rs := { rs with lastErrs := (se, re) }
           if rs.diverged then (rs, cl) else
           let mIds := cl.pendOps.map (·.1)
           let rs := if permEq mIds ids then rs else rs.diff "cl.pend" s!"model={mIds} impl={ids}"
